@@ -57,6 +57,25 @@ mod region_types {
         pub c: VI,
         pub d: VI,
     }
+
+    /// a record with chunks inside a chunk of a record with chunks (regions two deep) …
+    #[derive(Debug, Clone, PartialEq, BinaryCodec)]
+    #[evolution(FieldAdded("inner", VarHolder { pad: 0, a: VU(0), b: VU(0), c: VI(0), d: VI(0) }))]
+    pub struct VarOuter {
+        pub pre: u16,
+        pub inner: VarHolder,
+        pub tail: VI,
+    }
+
+    /// … and that inside a chunk of a third one (three deep)
+    #[derive(Debug, Clone, PartialEq, BinaryCodec)]
+    #[evolution(FieldAdded("lead", VU(0)), FieldAdded("outer", VarOuter { pre: 0, inner: VarHolder { pad: 0, a: VU(0), b: VU(0), c: VI(0), d: VI(0) }, tail: VI(0) }))]
+    pub struct VarOutermost {
+        pub head: VU,
+        pub lead: VU,
+        pub outer: VarOuter,
+        pub last: VI,
+    }
 }
 
 /// the same value as chunk-0, chunk-1 and chunk-2 field of an evolved record: bytes must be the reference varints in their
@@ -80,6 +99,45 @@ fn check_in_regions(x: u32) -> Option<String> {
         Ok(back) => Some(format!("read back {back:?}")),
         Err(e) => Some(format!("decode failed: {e}")),
     }
+}
+
+/// the same with the record nested in a chunk of another evolved record, and that one in a chunk of a third: input
+/// regions (and chunk buffers) two and three deep, every one with a start of its own
+fn check_in_nested_regions(x: u32) -> Option<String> {
+    use region_types::*;
+    let holder = VarHolder { pad: 0x0102_0304_0506_0708, a: VU(x), b: VU(x), c: VI(x as i32), d: VI(x as i32) };
+    let u = vu_bytes(x);
+    let i = vi_bytes(x as i32);
+    let framed = |chunks: &[Vec<u8>]| -> Vec<u8> {
+        let mut out = vec![(chunks.len() - 1) as u8];
+        for c in chunks {
+            out.extend_from_slice(&vi_bytes(c.len() as i32));
+        }
+        for c in chunks {
+            out.extend_from_slice(c);
+        }
+        out
+    };
+    let holder_bytes = framed(&[[&0x0102_0304_0506_0708u64.to_be_bytes()[..], &u[..], &i[..]].concat(), u.clone(), i.clone()]);
+    let outer = VarOuter { pre: 0xBEEF, inner: holder.clone(), tail: VI(x as i32) };
+    let outer_bytes = framed(&[[&0xBEEFu16.to_be_bytes()[..], &i[..]].concat(), holder_bytes.clone()]);
+    let outermost = VarOutermost { head: VU(x), lead: VU(x), outer: outer.clone(), last: VI(x as i32) };
+    let outermost_bytes = framed(&[[&u[..], &i[..]].concat(), u.clone(), outer_bytes.clone()]);
+    fn one<T: desert::BinarySerializer + desert::BinaryDeserializer + PartialEq + std::fmt::Debug>(what: &str, v: &T, expected: &[u8]) -> Option<String> {
+        let bytes = match desert::serialize_to_byte_vec(v) {
+            Ok(b) => b,
+            Err(e) => return Some(format!("{what}: encode failed: {e}")),
+        };
+        if bytes != expected {
+            return Some(format!("{what}: record bytes {} expected {}", hex(&bytes), hex(expected)));
+        }
+        match desert::deserialize::<T>(&bytes) {
+            Ok(back) if back == *v => None,
+            Ok(back) => Some(format!("{what}: read back {back:?}")),
+            Err(e) => Some(format!("{what}: decode failed: {e}")),
+        }
+    }
+    one("two regions deep", &outer, &outer_bytes).or_else(|| one("three regions deep", &outermost, &outermost_bytes))
 }
 
 struct VarScratch {
@@ -264,7 +322,7 @@ pub fn c11(ctx: &mut Ctx, acc: &mut Acc) -> i32 {
         );
         if !exhaustive {
             // (the exhaustive tier samples this sub-check below: a derived record per value would dominate its run time)
-            if let monitors::Outcome::Done(Some(w)) = monitors::guarded(|| check_in_regions(x), |_| None) {
+            if let monitors::Outcome::Done(Some(w)) = monitors::guarded(|| check_in_regions(x).or_else(|| check_in_nested_regions(x)), |_| None) {
                 acc.violation(format!("C11|in_region|{}", w.split(' ').next().unwrap_or("")), J::obj().with("check", J::s("C11")).with("mode", J::s("varint_in_region")).with("value", J::u(x)).with("what", J::s(w)));
             }
         }
@@ -298,7 +356,7 @@ pub fn c11(ctx: &mut Ctx, acc: &mut Acc) -> i32 {
         // inside regions: every 64th bit pattern of the slice plus its top end
         let mut k = 0u64;
         for x in (lo..hi).step_by(64).chain(hi.saturating_sub(4096)..hi) {
-            if let monitors::Outcome::Done(Some(w)) = monitors::guarded(|| check_in_regions(x as u32), |_| None) {
+            if let monitors::Outcome::Done(Some(w)) = monitors::guarded(|| check_in_regions(x as u32).or_else(|| check_in_nested_regions(x as u32)), |_| None) {
                 acc.violation(format!("C11|in_region|{}", w.split(' ').next().unwrap_or("")), J::obj().with("check", J::s("C11")).with("mode", J::s("varint_in_region")).with("value", J::u(x)).with("what", J::s(w)));
             }
             k += 1;
